@@ -17,6 +17,8 @@ ASSUMPTIONS = [
     "random scenarios make no edits between the kill and the recovery builds; the corpus witness F50 (kill around every row commit, then one "
     "input put back) covers edits after the kill; task bodies are deterministic functions of their declared inputs and module text",
     "persist / skip markers are not generated (a persisted or skipped task is outside 'what a from-scratch build would give', cf. C02)",
+    "database start-up: kills at the opening of the connection and before/after every CREATE TABLE on a fresh project and after .pytask was "
+    "deleted; file-level states: no .pytask, 0-byte pytask.sqlite3, database lacking the runtime or the state table",
     "memo file classes: empty, cut inside a key, cut inside a value, missing closing brace, non-UTF-8 bytes, JSON of the wrong shape",
     "the schedule of the killed build is the one observed at protocol entries; theorems quantify over all legal schedules and all k",
 ]
@@ -101,6 +103,21 @@ def scenarios_for(unit, rng, mode, budget):
     unconf = [n for (n, kind, _) in ref["points"] if kind.startswith("unconfigure")]
     out = []
     tail = [["build", {}, None], ["build", {}, None]]
+    if mode == "startup":
+        # database start-up (`create_database`: connection opened, one autocommitted CREATE TABLE per table) of a project that has
+        # no .pytask (fresh case) or whose .pytask was deleted (built case); plus the file-level states such a kill can leave
+        first = next((n for (n, kind, _) in ref["points"] if kind == "protocol.in"), N + 1)
+        fresh = not unit.case["pre"]
+        if fresh:
+            for k in range(1, first + 1):
+                out.append([["build", cfg, {"k": k}]] + tail)
+        else:
+            for k in range(1, 7):
+                out.append([["dbfile", "delete_pytask"], ["build", cfg, {"k": k}]] + tail)
+            for cls in crash.DBFILE_CLASSES[1:]:
+                out.append([["dbfile", cls]] + tail)
+            out.append([["dbfile", "zero"], ["build", cfg, {"k": rng.randint(1, 5)}]] + tail)
+        return out
     if mode == "all":
         for k in range(1, N + 1):
             sc = [["build", cfg, {"k": k}]]
@@ -157,6 +174,10 @@ def jobs_for(ctx):
     def scale(q, t):
         return max(1, int((t if ctx.thorough else q) * boost))
 
+    # database start-up: every point before the first task on a fresh project and on a project whose .pytask was deleted,
+    # and the file-level variants (0-byte database, database lacking a table)
+    jobs.append({"case": corpus[0], "mode": "startup", "budget": 0, "seed": rng.randrange(1 << 30)})
+    jobs.append({"case": corpus[1], "mode": "startup", "budget": 0, "seed": rng.randrange(1 << 30)})
     # exhaustive kill points on the corpus projects (quick: 2 of them, rotating with the seed; thorough: all) …
     pick = corpus if ctx.thorough else [corpus[(ctx.seed + 1) % len(corpus)]]
     for c in pick:
@@ -169,7 +190,7 @@ def jobs_for(ctx):
             jobs.append({"case": c, "mode": "all", "budget": 0, "seed": rng.randrange(1 << 30), "chunk": (i, 4)})
     # … and sampled points, second kills and other recovery configurations on more and bigger projects
     for _ in range(scale(6, 60)):
-        jobs.append({"case": random_case(rng, big=rng.random() < 0.5), "mode": "sample", "budget": 8 if not ctx.thorough else 12,
+        jobs.append({"case": random_case(rng, big=rng.random() < 0.5), "mode": "sample", "budget": 6 if not ctx.thorough else 12,
                      "seed": rng.randrange(1 << 30)})
     return jobs
 
@@ -210,6 +231,8 @@ def evaluate(ctx, results):
             for r in recs:
                 if r["step"][0] == "memo":
                     ctx.dist["memo=" + r["step"][1]] += 1
+                if r["step"][0] == "dbfile":
+                    ctx.dist["dbfile=" + r["step"][1]] += 1
             for r in builds:
                 if not r["died"]:
                     ctx.dist[f"recovery_exit={r['obs'].get('exit')}"] += 1
